@@ -35,8 +35,13 @@ func (c *controllerFacade) handleState(ctx context.Context, dryRun bool, fn func
 	if err != nil {
 		return err
 	}
+	finished := false
 	defer func() {
-		_ = ctrl.Rollback(ctx)
+		// When this runs inside an outer transaction the inner one is a savepoint: rolling back
+		// to a savepoint that was already released is an error that aborts the outer transaction.
+		if !finished {
+			_ = ctrl.Rollback(ctx)
+		}
 	}()
 
 	if err := withLock(ctx, ctrl, func(ctrl ledgercontroller.Controller, conn bun.IDB) error {
@@ -96,6 +101,7 @@ func (c *controllerFacade) handleState(ctx context.Context, dryRun bool, fn func
 	}
 
 	if !dryRun {
+		finished = true
 		if err := ctrl.Commit(ctx); err != nil {
 			return fmt.Errorf("failed to commit transaction: %w", err)
 		}
@@ -104,6 +110,7 @@ func (c *controllerFacade) handleState(ctx context.Context, dryRun bool, fn func
 		c.ledger.State = ledger.StateInUse
 		c.mu.Unlock()
 	} else {
+		finished = true
 		if err := ctrl.Rollback(ctx); err != nil {
 			return fmt.Errorf("failed to rollback transaction: %w", err)
 		}
